@@ -112,6 +112,7 @@ int do_op (string line) {
   case "rmcall": remove_call_out (hs[a]); break;
   case "sent": obs[b]->doact (a, v[c], v[d]); break;
   case "rmsent": obs[b]->rmact (a); break;
+  case "inp": obs[a]->doinput (v[b], v[c]); break;
   case "err": boom (v[a], v[b], 3); break;
   case "efun":
     catch (run_efun (a, v[b], v[c]));
